@@ -331,6 +331,18 @@ func runC08(c *Ctx) {
 						ok2 = t.Op == "call" && strings.HasSuffix(t.Sym, "crypto.Hash") && len(dec) == 1 && T(dec[0].Call.Common().Args[1]).String() == t.Args[0].String()
 					}
 					c.Require("C08.I1 id-is-hash-of-encoding", FuncKey(fn)+": "+o+".ID", p.InstrPos(st), "ID = Hash(x.Encode()) of the same value (or Hash of the very bytes decoded)", ok2, "value: "+t.String())
+					// … and it is recomputed on every successful path through the function: an ID
+					// already present (from JSON, from an earlier Init before a change) is never trusted
+					if ok2 {
+						ff := factsOf(fn)
+						isSt := func(x ssa.Instruction) bool { return x == ssa.Instruction(st) }
+						first := fn.Blocks[0].Instrs[0]
+						var path []*ssa.BasicBlock
+						if !isSt(first) {
+							path = reachesReturnAvoiding(first, isSt, func(r *ssa.Return) bool { return classifyReturn(ff, r) != RetErr })
+						}
+						c.Require("C08.I1 id-recomputed-unconditionally", FuncKey(fn)+": "+o+".ID", p.InstrPos(st), "no successful path through the function skips the ID computation", path == nil, pathStr(path))
+					}
 				}
 			}
 		}
